@@ -17,7 +17,10 @@ func init() {
 			{Harness: modPath + ".specHarnessNumber", For: modPath + ".Number", QuickN: 5, ThoroughN: 7,
 				What: "same for Number, including the four print forms and exponent arithmetic"},
 		},
+		Custom:  []string{"partial"},
+		Partial: []string{modPath + ".Number"},
 		Notes: []string{
+			"Number is under PARTIAL contract (7 loop invariants for the parse, trim, precision and normalisation phases): every obligation is generated, the ones that discharge on the unchanged tree (all overflow obligations of the exponent arithmetic, all index obligations outside the print phase) are registered in registry/C08-partial.json and claimed; the print-phase index obligations are undecided unboundedly and covered by the bounded harness",
 			"A-spec: 'canonical decimal digit string + exponent denotes the rational' is a fact about decimal notation (spec functions specParse/specSameValue in /repo/zz_spec_verif.go are the oracle, written from the property statement)",
 			"unbounded part: Decimal safety (bounds, overflow, nil), frame (writes only num[0:len)), result is a sub-slice of the argument, 1 <= len(res) <= len(num), termination variants; precondition prec <= 2^31 (values above are covered by the bounded harness with full int64 prec)",
 			"Number's unbounded safety proof is not claimed (print phase); Number is covered by the bounded harness only",
